@@ -265,6 +265,10 @@ class SinkExec:
                 self.open[cid]['open'] = False
                 del self.open[cid]
             self.cm.close_connection(self.t, cid)
+        elif kind == 'select':
+            # somebody looks at one connection only (or at all again): what the others do is still announced and recorded
+            self.ctl.process_command('connection ' + op[1])
+            return 0
         elif kind == 'message':
             _, cid, oid = op
             mc = self.open[cid]
@@ -343,6 +347,9 @@ def sink_machine(col, stage, tier):
         def message(self, data, oid):
             cid = data.draw(st.sampled_from(sorted(self.ex.open)))
             self._do(['message', cid, oid])
+
+        @rule(name=st.sampled_from(['A', 'B', 'C', 'all', 'all', 'D', 'Z']))
+        def select(self, name): self._do(['select', name])
 
         def teardown(self):
             if self.reported or not self.case['ops']:
